@@ -13,11 +13,13 @@ namespace Saltpack.Proofs.SenderP
 open Saltpack Saltpack.Sender
 
 /-- what the theorems need to know about an underlying writer: `obs` (the bytes
-    it has accepted) grows by exactly the bytes of a successful `Write` and not
-    at all by a failing one -/
+    it has accepted) grows by exactly the bytes of a successful `Write`, and by
+    some PREFIX of them (possibly none, possibly all) by a failing one — the
+    io.Writer contract `(n, err)`, `0 ≤ n ≤ len(p)`.  (A short write without
+    error is excluded: `ok` says a successful write took everything.) -/
 structure ObsWriter {ω : Type} (wr : ω → Bytes → Bool × ω) (obs : ω → Bytes) : Prop where
   ok : ∀ w p w', wr w p = (true, w') → obs w' = obs w ++ p
-  fail : ∀ w p w', wr w p = (false, w') → obs w' = obs w
+  fail : ∀ w p w', wr w p = (false, w') → ∃ q, q <+: p ∧ obs w' = obs w ++ q
 
 theorem wr_obs : ObsWriter Wr.write Wr.bytes := by
   constructor
@@ -46,7 +48,7 @@ theorem wr_obs : ObsWriter Wr.write Wr.bytes := by
       | true =>
         simp only [if_true] at h
         obtain ⟨_, rfl⟩ := Prod.mk.inj h
-        simp [Wr.bytes]
+        exact ⟨p.take (w.part.headD 0), List.take_prefix _ _, by simp [Wr.bytes]⟩
       | false => simp at h
 
 section generic
@@ -54,13 +56,19 @@ variable {ω : Type} (wr : ω → Bytes → Bool × ω) (obs : ω → Bytes)
 
 /-! ## `writePieces` and `Encode` -/
 
-/-- the pieces are written in order up to the first failure -/
+theorem take_flatten_prefix {α : Type} (ps : List (List α)) (k : Nat) : (ps.take k).flatten <+: ps.flatten := by
+  refine ⟨(ps.drop k).flatten, ?_⟩
+  rw [← List.flatten_append, List.take_append_drop]
+
+/-- the pieces are written in order up to the first failure (of the failing
+    piece a part may have been accepted): a prefix of their concatenation
+    reaches the writer, all of it if every write succeeded -/
 theorem writePieces_obs (hw : ObsWriter wr obs) : ∀ (ps : List Bytes) (w : ω),
-    ∃ k, k ≤ ps.length ∧ obs (writePieces wr ps w).2 = obs w ++ (ps.take k).flatten ∧
-      ((writePieces wr ps w).1 = true → k = ps.length) := by
+    ∃ q, q <+: ps.flatten ∧ obs (writePieces wr ps w).2 = obs w ++ q ∧
+      ((writePieces wr ps w).1 = true → q = ps.flatten) := by
   intro ps
   induction ps with
-  | nil => intro w; exact ⟨0, by simp [writePieces]⟩
+  | nil => intro w; exact ⟨[], by simp [writePieces]⟩
   | cons p ps ih =>
     intro w
     unfold writePieces
@@ -68,15 +76,16 @@ theorem writePieces_obs (hw : ObsWriter wr obs) : ∀ (ps : List Bytes) (w : ω)
     | mk ok w' =>
       cases ok with
       | true =>
-        obtain ⟨k, hk, ho, hall⟩ := ih w'
-        refine ⟨k + 1, by simp; omega, ?_, fun ht => by simp [hall ht]⟩
-        simp only [ho, hw.ok w p w' h, List.take_succ_cons, List.flatten_cons, List.append_assoc]
+        obtain ⟨q, hq, ho, hall⟩ := ih w'
+        refine ⟨p ++ q, ?_, ?_, fun ht => by simp [hall ht]⟩
+        · simp only [List.flatten_cons]
+          exact (List.prefix_append_right_inj p).2 hq
+        · simp only [ho, hw.ok w p w' h, List.append_assoc]
       | false =>
-        exact ⟨0, by simp, by simp [hw.fail w p w' h], by simp⟩
-
-theorem take_flatten_prefix {α : Type} (ps : List (List α)) (k : Nat) : (ps.take k).flatten <+: ps.flatten := by
-  refine ⟨(ps.drop k).flatten, ?_⟩
-  rw [← List.flatten_append, List.take_append_drop]
+        obtain ⟨q, hq, ho⟩ := hw.fail w p w' h
+        refine ⟨q, ?_, ho, by simp⟩
+        simp only [List.flatten_cons]
+        exact hq.trans (List.prefix_append _ _)
 
 /-- `Encode` on a failed encoder: an error, nothing written -/
 theorem encode_failed (pieces : Bytes → List Bytes) (c : Codec ω) (b : Bytes) (h : c.failed = true) :
@@ -91,14 +100,13 @@ theorem encode_obs (hw : ObsWriter wr obs) (pieces : Bytes → List Bytes) (hp :
     ∃ q, q <+: b ∧ obs (Codec.encode wr pieces c b).2.w = obs c.w ++ q ∧
       ((Codec.encode wr pieces c b).1 = true → q = b) ∧
       (Codec.encode wr pieces c b).2.failed = !(Codec.encode wr pieces c b).1 := by
-  obtain ⟨k, hk, ho, hall⟩ := writePieces_obs wr obs hw (pieces b) c.w
+  obtain ⟨q, hq, ho, hall⟩ := writePieces_obs wr obs hw (pieces b) c.w
   unfold Codec.encode
   simp only [h, Bool.false_eq_true, if_false]
-  refine ⟨((pieces b).take k).flatten, ?_, ho, ?_, trivial⟩
-  · have := take_flatten_prefix (pieces b) k
-    rwa [hp b] at this
+  refine ⟨q, ?_, ho, ?_, trivial⟩
+  · rwa [hp b] at hq
   · intro ht
-    rw [hall ht, List.take_length, hp b]
+    rw [hall ht, hp b]
 
 /-- the encoder's error flag is never cleared -/
 theorem encode_failed_mono (pieces : Bytes → List Bytes) (c : Codec ω) (b : Bytes) (h : c.failed = true) :
